@@ -120,32 +120,36 @@ let oracle (tpls : tpl list) (main : string) (ctx : (string * cval) list) : (str
     let base = List.nth chain (List.length chain - 1) in
     let defs b = List.concat_map (fun t -> List.filter_map (fun (n, body) -> if n = b then Some body else None) (collect t.items)) chain in
     let buf = Buffer.create 64 in
-    let rec render (l : item list) env (pos : (string * int) option) loopidx : unit =
+    (* one variable table for the whole rendering, as in the engine: an assignment made in a block body or in a loop
+       stays visible to everything rendered afterwards *)
+    let env = ref ctx in
+    let bind x v = env := (x, v) :: List.remove_assoc x !env in
+    let rec render (l : item list) (pos : (string * int) option) loopidx : unit =
       List.iter (fun it ->
         match it with
         | T s -> Buffer.add_string buf s
-        | V x -> Buffer.add_string buf (str x env)
+        | V x -> Buffer.add_string buf (str x !env)
         | LI -> Buffer.add_string buf (string_of_int loopidx)
-        | Set _ -> raise (Oerr "set inside a rendered body: not in the oracle's language")
+        | Set (x, s) -> bind x (CS s)
         | P ->
           (match pos with
            | None -> raise (Oerr "other")
            | Some (b, k) ->
              (match List.nth_opt (defs b) (k + 1) with
               | None -> raise (Oerr "other")
-              | Some body -> render body env (Some (b, k + 1)) loopidx))
+              | Some body -> render body (Some (b, k + 1)) loopidx))
         | B (n, _) ->
           (match defs n with
            | [] -> raise (Oerr "oracle: block without definition")
-           | body :: _ -> render body env (Some (n, 0)) loopidx)
+           | body :: _ -> render body (Some (n, 0)) loopidx)
         | If (x, a, b) ->
-          let truth = match List.assoc_opt x env with Some (CB t) -> t | Some (CS s) -> s <> "" && s <> "0" | Some (CL l) -> l <> [] | None -> false in
-          render (if truth then a else b) env pos loopidx
+          let truth = match List.assoc_opt x !env with Some (CB t) -> t | Some (CS s) -> s <> "" && s <> "0" | Some (CL l) -> l <> [] | None -> false in
+          render (if truth then a else b) pos loopidx
         | For (x, xs, body) ->
-          let l = match List.assoc_opt xs env with Some (CL l) -> l | _ -> [] in
-          List.iteri (fun i s -> render body ((x, CS s) :: List.remove_assoc x env) pos (i + 1)) l) l in
+          let l = match List.assoc_opt xs !env with Some (CL l) -> l | _ -> [] in
+          List.iteri (fun i s -> bind x (CS s); render body pos (i + 1)) l) l in
     (* the top level of the last template: everything; sets there would be executed, the generators put none *)
-    render base.items ctx None 0;
+    render base.items None 0;
     Ok (Buffer.contents buf)
   with Oerr cls -> Error cls
 
@@ -359,10 +363,14 @@ let gen_deep r : tpl list * string * (string * cval) list * (string * cval) list
           [ T "(:"; wrap (B (n, (match body ~last:true n i ~depth:(depth - 1) with Some x -> x | None -> [ T n ]))); T ":)" ]
         end else [] in
       let label = b ^ string_of_int i in
-      let pv = if rint r 3 = 0 then [ V "v" ] else [] in
+      (* what a definition reads: v (the overriding block may assign it between two parent() calls) *)
+      let pv = if rint r 5 < 2 then [ V "v" ] else [] in
       if c = Define then Some ([ T label ] @ pv @ inner ())
       else
-        (match rint r 5 with
+        (match rint r 8 with
+         | 5 -> Some ([ T (label ^ "("); For ("i", "xs", [ P; T "," ]); T ")" ])     (* parent() once per iteration *)
+         | 6 -> Some ([ T (label ^ "("); Set ("v", "A" ^ label); P; T "+"; Set ("v", "B" ^ label); P; T ")" ])   (* v changes between two calls *)
+         | 7 -> Some ([ T (label ^ "("); For ("i", "xs", [ Set ("v", "L" ^ label); P ]); Set ("v", "Z" ^ label); P; T ")" ])
          | 0 -> Some ([ T (label ^ "(") ] @ inner () @ [ P; T ")" ])                 (* a nested block, then parent() *)
          | 1 -> Some ([ T (label ^ "(") ; P; T "+"; P; T ")" ] @ pv)                  (* parent() twice *)
          | 2 -> Some ([ T (label ^ "(") ; P ] @ inner () @ [ T "+"; P; T ")" ])       (* parent(), a nested block, parent() again *)
